@@ -14,6 +14,8 @@ obs[1] = ref result    vs driver line `spec`    (Lean spec ≡ Python reference:
 obs[2] = Safe / inFragment, Python mirror vs Lean
 obs[3..6] = the same two pairs for the SAME prepared query evaluated again: after the data object was changed in place
          (case["ds2"]) and on another Graph / Dataset object with the same graph names (case["ds3"])
+obs[-2] = the `lazy` / `_vars` annotations on rdflib's tree vs the Lean model of `analyse` / `_addVars` (Analysis.lean)
+obs[-1] = impl result vs the Lean evaluator on the tree re-annotated by the Lean analysis (`amodel`)
 viol   = impl ≠ ref   (the property itself, decided without Lean; tags reeval-… / other-… for the re-evaluations)
 """
 import atexit
@@ -47,9 +49,11 @@ ASSUMPTIONS = ["the stores behave as sets of triples per graph (C01/C02); Datase
                "return a value: the specification adopts rdflib's (= false, != true, boolean < integer < string)",
                "EXISTS patterns are limited to constructs for which §18.6 `substitute` is unambiguous "
                "(triples, groups, UNION, a top-level FILTER, GRAPH)",
-               "initBindings = {} (C15 covers initial bindings)"]
+               "initBindings = {} (C15 covers initial bindings): nothing is pushed in at the top of a query, which is what the "
+               "hypothesis Alg.safeIn [] of eval_correct_top uses"]
 TRUSTED = ["harness/sparqlgen.py (generator, SPARQL printer, s-expression encoders incl. the reader of rdflib's algebra "
-           "tree, Python reference evaluator)", "lean/RV/C04/Drive.lean (s-expression parser, printer)",
+           "tree and of its `lazy` / `_vars` annotations, Python reference evaluator)",
+           "lean/RV/C04/Drive.lean (s-expression parser, printer)",
            "pyparsing tokenisation of the generated query text (the generator only prints fully parenthesised text)"]
 
 
@@ -238,7 +242,8 @@ def _safe_line(alg_sx):
     """mirror of the driver's `safe` answer, from sparqlgen's Python copy of RV/C04/Safe.lean"""
     try:
         pat = G.query_pattern(G.parse_sx(alg_sx))
-        return f"safe={0 if G.alg_problems(pat) else 1} frag={1 if G.alg_in_fragment(pat) else 0}"
+        return (f"safe={0 if G.alg_problems(pat) else 1} frag={1 if G.alg_in_fragment(pat) else 0} "
+                f"top={0 if G.alg_problems_in(pat, []) else 1}")
     except Exception as e:
         return f"safe-error {type(e).__name__}"
 
@@ -411,12 +416,20 @@ def run_impl(case):
     safe_line = _safe_line(alg)
     try:
         pat = G.query_pattern(G.parse_sx(alg))
-        probs = G.alg_problems(pat)
-        st["safe"] = int(not probs)
+        # round g: the hypothesis of the theorems is the context-sensitive `Alg.safeIn [] ` (`safe_top`); the context-free
+        # `Alg.safe` of the earlier rounds implies it (theorem safeIn_of_safe) and is still counted (`safe`)
+        probs_free = G.alg_problems(pat)
+        probs = G.alg_problems_in(pat, [])
+        st["safe"] = int(not probs_free)
+        st["safe_top"] = int(not probs)
+        if probs and not probs_free:
+            viol.append("harness: Alg.safe holds but Alg.safeIn [] does not (contradicts theorem safeIn_of_safe)")
         st["in_proved_fragment"] = int(G.alg_in_fragment(pat))
         st["safe_and_in_proved_fragment"] = int(not probs and G.alg_in_fragment(pat))
         for k in probs:
             st["unsafe_" + k] = 1
+        for k in probs_free:
+            st["unsafe_ctxfree_" + k] = 1
         if G.annotation_mismatches(pat):
             st["annotations_not_as_addVars"] = 1
         if viol and not probs:
@@ -430,6 +443,16 @@ def run_impl(case):
     # the in-scope variables to be present.
     n_elts = len(q["where"][1])
     obs = [obs_pairs[0][0], obs_pairs[0][1], safe_line] + [x for pr in obs_pairs[1:] for x in pr]
+    # round g: the annotations `analyse` / `_addVars` left on rdflib's tree vs the Lean model of the two passes run on the
+    # same tree; and rdflib's answer vs the Lean evaluator on the tree as the Lean analysis annotates it
+    try:
+        annot = G.annot_line(G.query_pattern(G.parse_sx(alg)))
+    except Exception as e:
+        annot = f"annot-error {type(e).__name__}"
+    obs += [annot, obs_pairs[0][0]]
+    st["annotated_nodes"] = max(0, len(annot.split(" ")) - 1)
+    st["lazy_joins"] = annot.count("J1")
+    st["strict_joins"] = annot.count("J0")
     return {"obs": obs, "viol": viol,
             "nontrivial": nonempty and (n_elts >= 2 or any(x[0] != "tri" for x in q["where"][1])),
             "key": text + "|" + G.sx_dataset(ds), "stats": st}
@@ -465,7 +488,8 @@ def model_lines(case):
         _prefetch()
     n = G.nvars(q)
     alg = _algebra_text(G.to_sparql(q))
-    lines = ["ds " + G.sx_dataset(ds), f"model {n} {alg}", f"spec {n} {G.sx_query(q)}", f"safe {alg}"]
+    lines = ["ds " + G.sx_dataset(ds), f"model {n} {alg}", f"spec {n} {G.sx_query(q)}", f"safe {alg}", f"annot {alg}",
+             f"amodel {n} {alg}"]
     if "ds2" in case and "ds3" in case:
         for k in ("ds2", "ds3"):
             lines += ["ds " + G.sx_dataset(case[k]), f"model {n} {alg}", f"spec {n} {G.sx_query(q)}"]
@@ -508,9 +532,11 @@ def _recanon(line, star):
 def select_model_obs(case, out):
     q = case["q"]
     star = q["form"] == "select" and q["proj"] is None
+    # out: 0 ds, 1 model, 2 spec, 3 safe, 4 annot, 5 amodel [, 6 ds2, 7 model, 8 spec, 9 ds3, 10 model, 11 spec]
     sel = [_recanon(out[1], star), _recanon(out[2], star), out[3]]
-    if len(out) >= 10:
-        sel += [_recanon(out[5], star), _recanon(out[6], star), _recanon(out[8], star), _recanon(out[9], star)]
+    if len(out) >= 12:
+        sel += [_recanon(out[7], star), _recanon(out[8], star), _recanon(out[10], star), _recanon(out[11], star)]
+    sel += [out[4], _recanon(out[5], star)]
     return sel
 
 
@@ -537,7 +563,7 @@ def _kind_matcher(kind):
         if not result.get("viol") or any(v.startswith("safe-") or v.startswith("raises") for v in result["viol"]):
             return False
         alg = _algebra_text(G.to_sparql(case["q"]))
-        probs = G.alg_problems(G.query_pattern(G.parse_sx(alg)))
+        probs = G.alg_problems_in(G.query_pattern(G.parse_sx(alg)), [])
         if not (set(kind) & probs):
             return False
         # the annotations must be exactly what the CURRENT `_addVars` computes: a change of `_addVars` is a new defect
